@@ -6,7 +6,7 @@ from .utils import norm_vector
 EDGES_PER_FACE = 3
 
 
-def epa(simplex, collider1, collider2, max_iter=64, max_loose_edges=32, max_faces=64, epsilon=1e-8):
+def epa(simplex, collider1, collider2, max_iter=64, max_loose_edges=None, max_faces=None, epsilon=1e-8):
     """Expanding Polytope Algorithm (EPA).
 
     Find minimum translation vector to resolve collision.
@@ -29,11 +29,13 @@ def epa(simplex, collider1, collider2, max_iter=64, max_loose_edges=32, max_face
     max_iter : int, optional (default: 64)
         Maximum number of iterations.
 
-    max_loose_edges : int, optional (default: 32)
+    max_loose_edges : int, optional (default: 3 * (max_iter + 4))
         Maximum number of loose edges per iteration.
 
-    max_faces : int, optional (default: 64)
-        Maximum number of faces in polytope.
+    max_faces : int, optional (default: 2 * (max_iter + 4))
+        Maximum number of faces in polytope. A triangulated convex polytope
+        with V vertices has 2 * V - 4 faces and each iteration adds one vertex
+        to the four vertices of the initial simplex.
 
     epsilon : float, optional (default: 1e-8)
         Floating point tolerance.
@@ -53,6 +55,10 @@ def epa(simplex, collider1, collider2, max_iter=64, max_loose_edges=32, max_face
     success : bool
         EPA converged before maximum number of iterations was reached.
     """
+    if max_faces is None:
+        max_faces = 2 * (max_iter + 4)
+    if max_loose_edges is None:
+        max_loose_edges = 3 * (max_iter + 4)
     polytope = Polytope(simplex, max_faces, epsilon)
     loose_edges = LooseEdges(max_loose_edges, epsilon)
 
